@@ -87,11 +87,12 @@ func c02Accounts() []*c02Acct {
 		multi("2of3[P256#2,SM2#1,Ed#1]", 2, fix.Key(fix.KP256, 2), fix.Key(fix.KSM2, 1), fix.Key(fix.KEd25519, 1)),
 		multi("1of2[P384#1,P256#3]", 1, fix.Key(fix.KP384, 1), fix.Key(fix.KP256, 3)),
 		multi("3of3[P256#4,P256#5,P224#1]", 3, fix.Key(fix.KP256, 4), fix.Key(fix.KP256, 5), fix.Key(fix.KP224, 1)),
-		single(fix.KEth, 0), // index 10: ethereum-type key used in an Ontology-format tx
+		single(fix.KSecp256k1, 0), // generic ECDSA key on the ethereum curve (script-hash address, not keccak)
+		single(fix.KEth, 0),       // index 11 (last): ethereum-type key used in an Ontology-format tx
 	}
 }
 
-const c02EthAcct = 10
+const c02EthAcct = 11
 
 // c02Attach appends the account's signature set to the tx (signing with the first M keys, or a
 // generated subset of size M when pick != nil).
@@ -242,7 +243,7 @@ type c02TxDesc struct {
 }
 
 func TestC02_ReplicasAgree(t *testing.T) {
-	ev := harn.For("C02").Rule("sequences of 2-5 blocks x 1-4 txs on three replicas from one genesis: native ONT/ONG transfers from single-key accounts of every key type (P-224/256/384/521, SM2, Ed25519) and m-of-n accounts (2of3, 1of2, 3of3 with generated signer subsets and extra co-signers), NeoVM scripts that CheckWitness every candidate account and notify the vector, scripts that build/serialize/notify maps with 2-8 generated keys, NeoVM deploys, EIP-155 transfers and creations (with LOG), Ontology-format txs signed by an ethereum-type key; replica A validates then executes the objects, B decodes the block bytes and syncs, C does the same in a fresh OS process. Non-trivial = block carrying a tx signed by a non-P256 or multi-sig account, a witness/map probe, or an EIP-155 tx; distinct by the block's tx descriptors").
+	ev := harn.For("C02").Rule("sequences of 2-5 blocks x 1-4 txs on three replicas from one genesis: native ONT/ONG transfers from single-key accounts of every key type (P-224/256/384/521, secp256k1, SM2, Ed25519) and m-of-n accounts (2of3, 1of2, 3of3 with generated signer subsets and extra co-signers), NeoVM scripts that CheckWitness every candidate account and notify the vector, scripts that build/serialize/notify maps with 2-8 generated keys, NeoVM deploys, EIP-155 transfers and creations (with LOG), Ontology-format txs signed by an ethereum-type key; replica A validates then executes the objects, B decodes the block bytes and syncs, C does the same in a fresh OS process. Non-trivial = block carrying a tx signed by a non-P256 or multi-sig account, a witness/map probe, or an EIP-155 tx; distinct by the block's tx descriptors").
 		Assume("both replicas are created from the same genesis block and configuration (network id 3, EVM chain id 12345)")
 	config.DefConfig.P2PNode.EVMChainId = c02ChainID
 	accts := c02Accounts()
